@@ -1143,7 +1143,11 @@ impl Gc {
         D::Value: Sized + Any,
     {
         let size = def.size();
-        let needed = self.allocated_memory.saturating_add(size);
+        // The header is accounted in `allocated_memory` as well so it must be part of the check
+        let needed = self
+            .allocated_memory
+            .saturating_add(GcHeader::value_offset())
+            .saturating_add(size);
         if needed >= self.memory_limit {
             return Err(Error::OutOfMemory {
                 limit: self.memory_limit,
